@@ -575,6 +575,7 @@ func vnHistory(t *vnToks) (res string) {
 			case <-time.After(deadline):
 				return fmt.Sprintf("STUCK step=%d two responses of one group in flight did not finish within %v", s, deadline)
 			}
+			<-done // (both waiters have returned before the WaitGroup is used again)
 			noteID(p.cluster, p.group)
 			var first, second []vnCall
 			for _, c := range calls {
